@@ -103,3 +103,9 @@ void h_polygonToCells(void) {
     H3Error e = polygonToCells(p, res, flags, out);
     __CPROVER_assert(0, "canary polygonToCells");
 }
+
+void h_compactCells(void) {
+    const H3Index *set; H3Index *out; int64_t n = nondet_i64();
+    H3Error e = compactCells(set, out, n);
+    __CPROVER_assert(0, "canary compactCells");
+}
